@@ -138,6 +138,12 @@ bool JsOn();
 int JsAvail();
 int JsNinjaHolds();
 
+/// Seam S8 (heap order): ninja keeps Edge* / Node* keyed ordered containers (Plan::want_, the dyndep walk sets), so the
+/// order in which it visits them follows the addresses malloc happened to return.  When set, Edge and Node objects of an
+/// invocation come from an arena that hands out *descending* addresses (glibc's are ascending for such a sequence).
+extern bool g_alloc_descending;
+extern uint64_t g_desc_allocs;   // objects placed so far
+
 /// Run one ninja invocation (real_main of the tree's ninja.cc) against disk `d`.
 RunResult RunNinja(vfs::Disk* d, const RunConfig& cfg, const std::vector<int>& choice_prefix);
 
